@@ -41,7 +41,8 @@ pub fn check_li(r: &mut Recorder, input: &[u8], exp: &Value) {
     r.stat("li_from_bytes");
     let got = match got {
         Err(at) => {
-            r.dis(&["C01"], &format!("panic@{}", short_at(&at)),
+            // a panic on a well-formed input is also a failure to accept it (C02), not only of totality
+            r.dis(if exp_ok { &["C01", "C02"] } else { &["C01"] }, &format!("panic@{}", short_at(&at)),
                   det(input, exp.clone(), json!({"api":"LanguageIdentifier::from_bytes","panic":at})));
             return;
         }
@@ -74,7 +75,8 @@ pub fn check_li(r: &mut Recorder, input: &[u8], exp: &Value) {
                     }
                 }
                 Ok(Err(e)) => r.dis(&["C02", "C04"], "li-canonicalize-err", det(input, json!(ser), json!(format!("{:?}", e)))),
-                Err(at) => r.dis(&["C01"], &format!("panic@{}", short_at(&at)), det(input, json!(null), json!({"api":"canonicalize","panic":at}))),
+                // (this input is well formed: canonicalize must succeed, C02 -- a panic is not success)
+                Err(at) => r.dis(&["C01", "C02"], &format!("panic@{}", short_at(&at)), det(input, json!(null), json!({"api":"canonicalize","panic":at}))),
             }
             // round trip (C05) and comparison with &str (C12); rejected calls first (see poison())
             poison(r);
@@ -131,7 +133,7 @@ pub fn check_li(r: &mut Recorder, input: &[u8], exp: &Value) {
                     r.dis(&["C02"], "li-fromstr-differs", det(input, json!(format!("{:?}", got.as_ref().map(proj_li))), json!(format!("{:?}", g2.as_ref().map(proj_li)))));
                 }
             }
-            Err(at) => r.dis(&["C01"], &format!("panic@{}", short_at(&at)), det(input, json!(null), json!({"api":"FromStr","panic":at}))),
+            Err(at) => r.dis(if exp_ok { &["C01", "C02"] } else { &["C01"] }, &format!("panic@{}", short_at(&at)), det(input, json!(null), json!({"api":"FromStr","panic":at}))),
         }
     }
 }
@@ -261,7 +263,7 @@ pub fn check_loc(r: &mut Recorder, input: &[u8], exp: &Value) {
     r.stat(&format!("zone_{}", zone));
     let got = match got {
         Err(at) => {
-            r.dis(&["C01"], &format!("panic@{}", short_at(&at)),
+            r.dis(if zone == "accept" { &["C01", "C03"] } else { &["C01"] }, &format!("panic@{}", short_at(&at)),
                   det(input, json!({"zone": zone}), json!({"api":"Locale::from_bytes","panic":at})));
             return;
         }
@@ -426,7 +428,7 @@ pub fn check_sub(r: &mut Recorder, c: &Value) {
             r.stat(concat!("sub_", $name));
             let exp_ok = is[$idx].as_bool().unwrap_or(false);
             match guard(|| <$ty>::from_bytes(&s)) {
-                Err(at) => r.dis(&["C01"], &format!("panic@{}", short_at(&at)), det(&s, json!(null), json!({"api": concat!($name, "::from_bytes"), "panic": at}))),
+                Err(at) => r.dis(if exp_ok { &["C01", "C15"] } else { &["C01"] }, &format!("panic@{}", short_at(&at)), det(&s, json!(null), json!({"api": concat!($name, "::from_bytes"), "panic": at}))),
                 Ok(Ok(v)) => {
                     if !exp_ok {
                         r.dis(&["C15"], concat!($name, "-accepts-ill-formed"), det(&s, json!("err"), json!(v.as_str())));
